@@ -222,9 +222,6 @@ Proof.
     + unfold default_first. rewrite split_default_app_none by done. cbn. eauto.
 Qed.
 
-Definition plain_layers (m : lfs) (t : path) : Prop :=
-  Forall (λ nr, ∃ dn, nr.2 = [Normal dn]) (layer_entries_of m t).
-
 Lemma should_load_all name p : should_load (r_filter req_all) name p = true.
 Proof. done. Qed.
 
@@ -232,14 +229,14 @@ Lemma filter_true {A} (l : list A) : filter (λ _, true = true) l = l.
 Proof. induction l as [|a l IH]; [done|]. rewrite filter_cons_True by done. by rewrite IH. Qed.
 
 Lemma val_load_layers_sim fl t m Fl :
-  plain_layers m t →
+  default_plain m t →
   val (load_layers (r_filter req_all) t) m = inr Fl →
   val (load_layers fl t) m = inr (restrict_layers fl Fl).
 Proof.
   intros Hplain. unfold load_layers. rewrite ?val_bind. rewrite ?val_exists.
   destruct (negb _); [discriminate|]. rewrite ?val_bind. rewrite ?val_exists.
   rewrite ?val_bind. rewrite ?val_read.
-  unfold plain_layers, layer_entries_of in Hplain.
+  unfold default_plain, layer_entries_of in Hplain.
   destruct (read m (t ++ [LAYER_CONTENTS_FILE])) as [[]|]; try discriminate.
   rewrite ?val_bind.
   assert (Hf : filter (λ nr : string * rel, should_load (r_filter req_all) nr.1 nr.2) ls = ls).
@@ -249,11 +246,11 @@ Proof.
   set (Q := λ l : llayer, should_load fl (ll_name l) (ll_rel l)).
   rewrite (val_mapM_filter (load_layer t) (λ nr, should_load fl nr.1 nr.2) Q ls m layers); [|
     intros a b Hab; apply val_load_layer_fields in Hab as (Hn & Hr & _); unfold Q; by rewrite Hn, Hr | done].
-  assert (Hpl : Forall (λ l, ll_rel l = [Normal (ll_dir l)]) layers).
+  assert (Hpl : Forall (λ l, is_default l = true → ll_rel l = [Normal (ll_dir l)]) layers).
   { eapply (val_mapM_Forall (load_layer t)); [|exact Eall].
-    intros a b Hin Hab. apply val_load_layer_fields in Hab as (_ & Hr & Hfn).
-    rewrite Forall_forall in Hplain. destruct (Hplain a Hin) as [dn Hdn].
-    rewrite Hdn in Hfn. cbn in Hfn. injection Hfn as <-. by rewrite Hr. }
+    intros a b Hin Hab Hd. apply val_load_layer_fields in Hab as (_ & Hr & Hfn).
+    unfold is_default in Hd. apply bool_decide_eq_true in Hd.
+    rewrite Forall_forall in Hplain. rewrite Hd in Hfn. rewrite Hr, Hd. by apply (Hplain a Hin). }
   unfold with_placeholder at 1. cbn [includes_default req_all r_filter fl_all orb negb andb].
   destruct (default_first layers) as [Fl'|] eqn:Edf; [|discriminate]. cbn. intros [= <-].
   unfold default_first in Edf. destruct (split_default layers) as [[d rest]|] eqn:Es; [|discriminate].
@@ -263,6 +260,7 @@ Proof.
     intros HQ. destruct (includes_default fl) eqn:Einc; [|done]. exfalso.
     destruct (split_default_spec _ _ _ Es) as (A & B & -> & _ & Hd & _).
     apply Forall_app in Hpl as [_ Hpl]. inversion Hpl as [|? ? Hrel _]; subst.
+    specialize (Hrel Hd).
     unfold Q, should_load in HQ. rewrite Hrel in HQ. unfold is_default in Hd.
     apply bool_decide_eq_true in Hd. rewrite Hd in HQ.
     unfold includes_default in Einc. rewrite bool_decide_eq_true_2 in HQ by done.
@@ -371,7 +369,7 @@ Proof.
 Qed.
 
 Lemma layer_step_sim r t m F F' P :
-  plain_layers m t →
+  default_plain m t →
   val (ld_sem req_all t LdLayers F) m = inr F' → sim (λ a b, a = [] ∧ b = []) r F P →
   ∃ P', val (ld_sem r t LdLayers P) m = inr P' ∧ sim (λ a b, b = restrict_layers (r_filter r) a) r F' P'.
 Proof.
@@ -383,7 +381,7 @@ Proof.
 Qed.
 
 Lemma load_restrict r t m f :
-  plain_layers m t → val (load req_all t) m = inr f → val (load r t) m = inr (restrict r f).
+  default_plain m t → val (load req_all t) m = inr f → val (load r t) m = inr (restrict r f).
 Proof.
   intros Hpl. unfold load, load_steps.
   change [LdAccess; LdMeta; LdLib; LdInfo; LdGroups; LdKerning; LdFeatures; LdLayers; LdData; LdImages;
@@ -771,4 +769,22 @@ Proof.
   intros e Hall. destruct e as [p|d]; cbn.
   - symmetry. apply Hsame. intros Hu. by apply (Hall p Hu).
   - intros p Hp. symmetry. apply Hsame. intros Hu. by apply (Hall p Hu).
+Qed.
+
+Lemma default_plainb_spec m t : default_plainb m t = true ↔ default_plain m t.
+Proof.
+  unfold default_plainb, default_plain. rewrite forallb_forall, Forall_forall. split; intros H nr Hin.
+  - intros Hfn. specialize (H nr (proj1 (elem_of_list_In _ _) Hin)).
+    apply orb_true_iff in H as [H|H].
+    + apply negb_true_iff, bool_decide_eq_false in H. done.
+    + by apply bool_decide_eq_true in H.
+  - apply elem_of_list_In in Hin. specialize (H nr Hin).
+    destruct (decide (file_name_of t nr.2 = Some DEFAULT_GLYPHS_DIRNAME)) as [E|E].
+    + apply orb_true_iff. right. apply bool_decide_eq_true. by apply H.
+    + apply orb_true_iff. left. apply negb_true_iff, bool_decide_eq_false. done.
+Qed.
+Lemma F23_decidable m t : default_plain m t ∨ KnownClass_F23 m t.
+Proof.
+  destruct (default_plainb m t) eqn:E; [left; by apply default_plainb_spec|].
+  right. intros H%default_plainb_spec. congruence.
 Qed.
